@@ -138,6 +138,17 @@ class Scheduler(object):
             self.cond.notify_all()
 
 
+class NullScheduler(object):
+    """For free-running use of the proxies (owner tracking only)."""
+    active = False
+
+    def controlled(self):
+        return False
+
+    def step(self, *a, **k):
+        pass
+
+
 # ---- strategies ---------------------------------------------------------------
 class Preemptions(object):
     """Non-pre-emptive by default; at decision index i in `plan` switch to the
